@@ -484,6 +484,50 @@ def case_init(tag, pad=3, funcs=0, sameline=False):
     return [m.cmd(), "load o1 %s/m" % d, exp]
 
 
+def case_init_big(tag, nlines=6, nterms=24, pad=2):
+    """an initialiser block of several hundred bytes: `nlines` initialised globals with long expressions in front of the
+    failing one (its noted offset is far beyond 255)"""
+    d = "/c18/%s" % tag
+    m = Src("%s/m.c" % d)
+    m.text("int x_;\nint z_;\nvoid set_oid(string s) {}\nint h0(int k) {\n  x_ = k;\n  return x_;\n}\n")
+    m.pad("n", pad)
+    for i in range(nlines):
+        m.text("int a%d_ = %s;\n" % (i, " + ".join("(x_ * %d)" % (j % 50 + 2) for j in range(nterms))))
+        if i % 2:
+            m.pad("c", 1)
+    ln = m.line
+    m.text("mixed g_ = 10 / z_;\nint b_ = 3 + x_;\nint go() { return 1; }\n")
+    p, o = "%s/m.c" % d.lstrip("/"), "%s/m" % d
+    exp = "expect kind=plain phase=load file=%s lines=%d-%d program=%s object=%s trace=#global_init#@%s@%s@%s@%d-%d" % (
+        p, ln, ln, p, o, p, o, p, ln, ln)
+    return [m.cmd(), "load o1 %s/m" % d, exp]
+
+
+def case_after_failed_compile(tag, rng=None, nfun=2):
+    """a program that does not compile (its error is behind complete functions, so code and line runs had been generated)
+    followed, in the same driver, by a good program with a runtime error: nothing of the abandoned compilation may leak"""
+    d = "/c18/%s" % tag
+    b = Src("%s/bad.c" % d)
+    b.text("int x_;\nvoid set_oid(string s) {}\n")
+    for i in range(nfun):
+        b.text("int h%d(int k) {\n" % i)
+        b.pad("s", rng.range(1, 30) if rng else 7)
+        b.text("  return k + %d;\n}\n" % i)
+    bl = b.line + 1
+    b.text("int bad_(int k) {\n  zz_undefined_ = k;\n  return k;\n}\n")
+    m = Src("%s/m.c" % d)
+    m.text("int x_;\nvoid set_oid(string s) {}\n")
+    m.pad("n", rng.range(0, 20) if rng else 3)
+    m.text("int go(int k) {\n")
+    m.pad("s", rng.range(0, 12) if rng else 2)
+    ln = m.line
+    m.text("  x_ = 10 / k;\n  return 0;\n}\n")
+    p, o = "%s/m.c" % d.lstrip("/"), "%s/m" % d
+    exp = "expect kind=plain file=%s lines=%d-%d program=%s object=%s trace=go@%s@%s@%s@%d-%d" % (p, ln, ln, p, o, p, o, p, ln, ln)
+    return [b.cmd(), m.cmd(), "load o4 %s/bad" % d, "expectce file=%s line=%d text=Undefined_variable_'zz_undefined_'" % (b.name, bl),
+            "load o1 %s/m" % d, "apply o1 go", exp, "dump o1"]
+
+
 def case_init_pair(tag, pad=3):
     """two programs compiled one after the other whose only initialisers are on the SAME line: the line bookkeeping of
     the initialiser block must start afresh for every compilation"""
@@ -1350,6 +1394,12 @@ class C18(Prop):
                 lines = case_overlap(tag, rng.choice(["main", "inc"]), rng.range(0, 400))
                 out.append(E.Case("g%d" % i, (["mode ginc"] if rng.chance(1, 3) else []) + lines, {"fail": "compile-error", "origin": "generated"}))
                 continue
+            if rng.chance(1, 40):
+                out.append(E.Case("g%d" % i, case_after_failed_compile(tag, rng, rng.range(1, 4)), {"fail": "div", "origin": "generated"}))
+                continue
+            if rng.chance(1, 40):
+                out.append(E.Case("g%d" % i, case_init_big(tag, rng.range(2, 10), rng.range(8, 45), rng.range(0, 100)), {"fail": "init", "origin": "generated"}))
+                continue
             if rng.chance(1, 20):
                 out.append(E.Case("g%d" % i, case_init_pair(tag, pad=rng.range(0, 300)) if rng.chance(1, 3) else
                                   case_init(tag, pad=rng.range(0, 300), funcs=rng.range(0, 4), sameline=rng.choice([False, False, True, 2])),
@@ -1474,6 +1524,10 @@ class C18(Prop):
         mk("init-after-functions", case_init("b_init2", pad=40, funcs=3), fail="init")
         mk("init-same-line-as-function", case_init("b_init5", pad=4, funcs=1, sameline=True), fail="init")
         mk("init-same-line-only", case_init("b_init6", pad=0, funcs=0, sameline=True), fail="init")
+        mk("init-big-block", case_init_big("b_init8"), fail="init")
+        mk("init-big-block-far", case_init_big("b_init9", nlines=12, nterms=40, pad=300), fail="init")
+        mk("after-failed-compile", case_after_failed_compile("b_afc"), fail="div")
+        mk("after-failed-compile-3", case_after_failed_compile("b_afc3", nfun=5), fail="div")
         mk("init-same-line-twice", case_init("b_init7", pad=2, funcs=1, sameline=2), fail="init")
         mk("init-after-other-compile", case_init_pair("b_init3", pad=3), fail="init")
         mk("init-after-other-compile-far", case_init_pair("b_init4", pad=300), fail="init")
@@ -1489,13 +1543,43 @@ class C18(Prop):
         mk("reinclude-first", case_reinclude("b_reinc1", first_ok=True), fail="reinclude-first")
         return B
 
+    def frozen_texts(self):
+        """the frozen copies `def exp<Region> : List String := [...]` of NV/C18/SourceTexts*.lean"""
+        out = {}
+        for fn in ("SourceTexts.lean", "SourceTexts2.lean"):
+            t = open(os.path.join(E.VERIF, "lean/NV/C18", fn)).read()
+            for m in re.finditer(r"def exp(\w+) : List String := \[\n(.*?)\]\n", t, re.S):
+                items = re.findall(r'^\s*"((?:[^"\\]|\\.)*)",?$', m.group(2), re.M)
+                out["src" + m.group(1)] = [i.replace('\\"', '"').replace("\\\\", "\\") for i in items]
+        return out
+
+    def text_tie_report(self):
+        """which hand-modelled source region differs from the text the model was written from, and where: the Lean
+        obligations source_statements_agree(2) only say THAT a region changed"""
+        probs = []
+        try:
+            frozen = self.frozen_texts()
+            for name, lines in self.source_statements() + self.source_statements2():
+                exp = frozen.get(name)
+                if exp is None or exp == lines:
+                    continue
+                k = next((i for i in range(min(len(exp), len(lines))) if exp[i] != lines[i]), min(len(exp), len(lines)))
+                probs.append({"kind": "tie-broken", "name": "source-text:%s" % name,
+                              "detail": "statement %d of the region: source now `%s`, model written from `%s`" % (
+                                  k + 1, lines[k] if k < len(lines) else "<removed>", exp[k] if k < len(exp) else "<added>")})
+        except X.TieBroken as e:
+            probs.append({"kind": "tie-broken", "name": "source-text", "detail": str(e)})
+        return probs
+
     def extra_checks(self, ctx, tier, rng):
-        """the oracle's own positive / negative examples (lean/NV/C18/OracleTests.lean)"""
+        """the oracle's own positive / negative examples (lean/NV/C18/OracleTests.lean); a precise report for a changed
+        source region"""
+        probs = self.text_tie_report()
         p = E.run([E.nvdrive_exe(), "C18", "selftest"])
         if p.returncode == 0 and p.stdout.startswith("selftest ok"):
             self.selftest = p.stdout.strip()
-            return []
-        return [{"kind": "obligation-broken", "name": "oracle-selftest", "detail": (p.stdout + p.stderr)[-500:]}]
+            return probs
+        return probs + [{"kind": "obligation-broken", "name": "oracle-selftest", "detail": (p.stdout + p.stderr)[-500:]}]
 
     def histogram(self, cases, impl):
         h = {"binary_all_reloaded_from_binary": 0, "binary_some_recompiled": 0, "fail": {}, "calls": {}, "depth": {}, "slots": {}, "inherit": 0, "binary": 0, "caught": 0, "long": 0,
